@@ -23,6 +23,8 @@
 
 struct vhost vhosts[MAXHOSTS];
 int nvhosts;
+int stub_connerr;
+extern void err(char *format, ...);
 
 static int host_index(const char *name, int rank)
 {
@@ -61,6 +63,12 @@ static int stub_rcmd(char *ahost, char *addr, char *luser, char *ruser, char *cm
     r = sched_do(e);
     if (r->ret < 0) {
         errno = r->err;
+        if (stub_connerr) {     /* what src/modules/xrcmd.c prints when connect() fails */
+            if (errno == EINTR)
+                err("%p: %S: connect: timed out\n", ahost);
+            else
+                err("%p: %S: connect: %m\n", ahost);
+        }
         return -1;
     }
     if (fd2p)
